@@ -117,7 +117,7 @@ def gen_enum_def(r, name):
     n = r.choice([1, 2, 3, 4, 5])
     vs = []
     for k in range(n):
-        v = {"name": "V%d" % k, "skip": r.random() < 0.2, "index": None, "disc": None, "fields": [], "shape": "unit", "rev": r.choice([0, 1])}
+        v = {"name": "V%d" % k, "skip": r.random() < 0.2, "index": None, "disc": None, "fields": [], "shape": "unit", "rev": r.choice([0, 1]), "lit": r.choice([0, 0, 1, 2, 3, 4])}
         src = r.choice(["pos", "pos", "attr", "disc"])
         if src == "attr":
             v["index"] = r.choice([0, 1, 2, 3, 7, 9, 100, 200, 255])
@@ -182,6 +182,8 @@ def definitions(seed, thorough):
         dict(kind="enum", name="FxAllSkipped", variants=[unit("A", skip=True), unit("B", skip=True)]),
         dict(kind="enum", name="FxOneSkipped", variants=[unit("A", skip=True), unit("B"), unit("C", index=0)] if False else [unit("A", skip=True), unit("B"), unit("C", index=5)]),
         dict(kind="enum", name="FxEmpty", variants=[]),
+        # the largest enum the format allows: every one of its 256 variants must decode
+        dict(kind="enum", name="Fx256", variants=[unit("V%d" % i) for i in range(256)]),
         # index attribute and explicit discriminant on one variant: the attribute wins
         dict(kind="enum", name="FxAttrDisc", variants=[unit("A", index=9, disc=7), unit("B", disc=3), unit("C")]),
         dict(kind="enum", name="FxAttrDisc2", variants=[unit("A", disc=1), unit("B", index=1, disc=0)] if False else [unit("A", disc=4), unit("B", index=1, disc=0)]),
@@ -336,7 +338,7 @@ def run(g, cfg, pid, tier, seed, work, problems):
         stats = json.load(open(os.path.join(work, "stats.json")))
     except Exception:
         stats = dict(evaluations=0, distinct_nontrivial=0)
-    stats["rule"] = ("seeded type definitions over the attribute grammar (unit / tuple / named structs; enums with unit, tuple and named variants; fields plain / compact / encoded_as the compact type / encoded_as a non-compact wrapper / skip over 14 field types; attributes on a variant as separate attributes in both orders; variants with index attributes, explicit discriminants (also on variants with fields), both at once, implicit positions, skip) plus fixed shapes (single non-skipped field, all fields skipped, repr(transparent) with and without compact, all variants skipped, empty enum, skipped variant in the middle), also nested in Vec / Box / arrays / Option; per type: seeded values -> encode vs the model's encoding of the descriptor derived from the definition, decode of the encoding + suffix, three mutations, and every possible first byte; every value in a skipped variant is encoded in a child process (must print no bytes and exit). non-trivial = non-empty input")
+    stats["rule"] = ("seeded type definitions over the attribute grammar (unit / tuple / named structs; enums with unit, tuple and named variants; fields plain / compact / encoded_as the compact type / encoded_as a non-compact wrapper / skip over 14 field types; attributes on a variant as separate attributes in both orders; variants with index attributes, explicit discriminants (also on variants with fields), index literals in decimal / hex / binary / octal / suffixed spelling, both at once, implicit positions, skip) plus fixed shapes (single non-skipped field, all fields skipped, repr(transparent) with and without compact, all variants skipped, empty enum, skipped variant in the middle), also nested in Vec / Box / arrays / Option; per type: seeded values -> encode vs the model's encoding of the descriptor derived from the definition, decode of the encoding + suffix, three mutations, and every possible first byte; every value in a skipped variant is encoded in a child process (must print no bytes and exit). non-trivial = non-empty input")
     stats["oracle_checks"] = int(stats.get("oracle_checks", 0)) + len(pr)
     stats.setdefault("distribution", {})["definitions"] = len(defs)
     stats["distribution"]["skipped_variant_probes"] = len(pr)
